@@ -154,7 +154,12 @@ class ImageBatch(DataTensor):
             if func in (torch.tensor_split, Tensor.tensor_split):
                 grids = grids[0]
                 split_grids = []
-                tensor_indices_or_sections = args[1]
+                if len(args) > 1:
+                    tensor_indices_or_sections = args[1]
+                else:
+                    tensor_indices_or_sections = kwargs.get("indices", kwargs.get("sections"))
+                    if tensor_indices_or_sections is None:
+                        tensor_indices_or_sections = kwargs.get("tensor_indices_or_sections")
                 if isinstance(tensor_indices_or_sections, int):
                     # Number of sections, where first len(grids) % sections parts have one more item
                     num, extra = divmod(len(grids), tensor_indices_or_sections)
